@@ -259,7 +259,7 @@ def run(prop, seed, budget, ctx):
         for f in ff: hist["P:" + f["why"][0].split(":")[0]] += 1
     if prop == "C05":
         from discr import run_discr
-        df, dn, dd, dh = run_discr(seed, budget, want=("roundtrip",))
+        df, dn, dd, dh = run_discr(seed, budget, want=("roundtrip",), single=False)      # (one subclass: KF50 of C13; the value itself round-trips)
         for f in df: f["features"] = f.get("features", []); hist["P:" + f["why"][0]] += 1
         failures += df; distinct |= dd
         for k, v in dh.items(): hist["discriminated:" + k] += v
